@@ -40,15 +40,81 @@ pub open spec fn frame_type_code(first: bool, last: bool) -> u8 {
     if first && last { 1 } else if first { 2 } else if last { 4 } else { 3 }
 }
 
+/// length of one encoded frame
+pub proof fn lemma_frame_enc_len(pos: int, ty: u8, payload: Seq<u8>)
+    ensures frame_enc(pos, ty, payload).len() == pad_len(pos) + 7 + payload.len(),
+{
+    vstd::bytes::lemma_auto_spec_u32_to_from_le_bytes();
+    vstd::bytes::lemma_auto_spec_u16_to_from_le_bytes();
+}
+
+/// after a frame that used all the room of its block (or found room for a bare header only), the
+/// next frame starts a fresh block
+pub proof fn lemma_full_frame_ends_block(pos: int)
+    requires pos >= 0,
+    ensures
+        (pos + pad_len(pos) + 7 + max_frame_payload(pos)) % BLOCK() == 0,
+        max_frame_payload(pos + pad_len(pos) + 7 + max_frame_payload(pos)) == BLOCK() - 7,
+        0 <= pos % BLOCK() < BLOCK(),
+{
+    let m = pos % 32768;
+    let q = pos / 32768;
+    assert(pos == 32768 * q + m && 0 <= m < 32768) by (nonlinear_arith) requires m == pos % 32768, q == pos / 32768, pos >= 0;
+    let pos2 = pos + pad_len(pos) + 7 + max_frame_payload(pos);
+    if 32768 - m < 7 {
+        assert(pos2 == 32768 * (q + 2)) by (nonlinear_arith)
+            requires pos == 32768 * q + m, pos2 == pos + (32768 - m) + 7 + (32768 - 7);
+        assert(pos2 % 32768 == 0) by (nonlinear_arith) requires pos2 == 32768 * (q + 2);
+    } else {
+        assert(pos2 == 32768 * (q + 1)) by (nonlinear_arith)
+            requires pos == 32768 * q + m, pos2 == pos + 0 + 7 + (32768 - m - 7);
+        assert(pos2 % 32768 == 0) by (nonlinear_arith) requires pos2 == 32768 * (q + 1);
+    }
+}
+
 /// bytes pushed by write_record for a serialized entry `payload` starting at stream position `pos`
 pub open spec fn enc(pos: int, payload: Seq<u8>, first: bool) -> Seq<u8>
+    decreases payload.len(), (if max_frame_payload(pos) == 0 { 1int } else { 0int }),
+    when pos >= 0
+    via enc_decreases
+{
+    let avail = max_frame_payload(pos);
+    let n = if avail < payload.len() { avail } else { payload.len() as int };
+    let last = n == payload.len();
+    let f = frame_enc(pos, frame_type_code(first, last), payload.take(n));
+    if last { f } else { f + enc(pos + f.len(), payload.skip(n), false) }
+}
+
+#[via_fn]
+proof fn enc_decreases(pos: int, payload: Seq<u8>, first: bool) {
+    let avail = max_frame_payload(pos);
+    let n = if avail < payload.len() { avail } else { payload.len() as int };
+    let last = n == payload.len();
+    let f = frame_enc(pos, frame_type_code(first, last), payload.take(n));
+    lemma_frame_enc_len(pos, frame_type_code(first, last), payload.take(n));
+    lemma_full_frame_ends_block(pos);
+    if !last {
+        assert(n == avail);
+        assert(payload.skip(n).len() == payload.len() - n);
+    }
+}
+
+/// L-enc-len: an entry of n bytes costs at most 14 n + 21 bytes of WAL (used to exclude u64 overflow)
+pub proof fn lemma_enc_len_bound(pos: int, payload: Seq<u8>, first: bool)
+    requires pos >= 0,
+    ensures enc(pos, payload, first).len() <= 14 * payload.len() + 14 + (if max_frame_payload(pos) == 0 { 7int } else { 0int }),
     decreases payload.len(), (if max_frame_payload(pos) == 0 { 1int } else { 0int }),
 {
     let avail = max_frame_payload(pos);
     let n = if avail < payload.len() { avail } else { payload.len() as int };
     let last = n == payload.len();
     let f = frame_enc(pos, frame_type_code(first, last), payload.take(n));
-    if pos < 0 { f } else if last { f } else { f + enc(pos + f.len(), payload.skip(n), false) }
+    lemma_frame_enc_len(pos, frame_type_code(first, last), payload.take(n));
+    lemma_full_frame_ends_block(pos);
+    if !last {
+        assert(payload.skip(n).len() == payload.len() - n);
+        lemma_enc_len_bound(pos + f.len(), payload.skip(n), false);
+    }
 }
 
 // ------------------------------------------------------------------------------------ frame reader
@@ -114,6 +180,70 @@ pub open spec fn frame_step(blocks: Seq<Seq<u8>>, p: RdPos) -> FStep {
 pub open spec fn rd_progress(a: RdPos, b: RdPos) -> bool {
     b.idx > a.idx || (b.idx == a.idx && !a.corrupted && b.corrupted)
         || (b.idx == a.idx && a.corrupted == b.corrupted && b.cursor > a.cursor)
+}
+
+// ------------------------------------------------------------------------------------ WAL entries
+/// abstract WAL entry: kind code (on-disk type byte), queue name, position field, body
+/// kinds: 1 = Truncate(..=position), 2 = RecordPosition(next = position), 3 = DeleteQueue, 4 = AppendRecords
+pub struct EntryView { pub kind: u8, pub queue: Seq<char>, pub position: u64, pub body: Seq<u8> }
+
+pub open spec fn name_bytes(q: Seq<char>) -> Seq<u8> { vstd::utf8::encode_utf8(q) }
+
+/// on-disk layout of an entry: type(1) | position(8, le) | queue_len(2, le) | queue bytes | body
+pub open spec fn ser_entry(e: EntryView) -> Seq<u8> {
+    seq![e.kind] + spec_u64_to_le_bytes(e.position) + spec_u16_to_le_bytes(name_bytes(e.queue).len() as u16)
+        + name_bytes(e.queue) + e.body
+}
+
+/// items of an AppendRecords body: (position(8, le) | len(4, le) | payload)*
+pub open spec fn ser_item(pos: u64, payload: Seq<u8>) -> Seq<u8> {
+    spec_u64_to_le_bytes(pos) + spec_u32_to_le_bytes(payload.len() as u32) + payload
+}
+
+pub open spec fn ser_items(items: Seq<(u64, Seq<u8>)>) -> Seq<u8>
+    decreases items.len(),
+{
+    if items.len() == 0 { Seq::<u8>::empty() } else { ser_item(items[0].0, items[0].1) + ser_items(items.skip(1)) }
+}
+
+/// parse the first item of a body: None = corrupted (too short)
+pub open spec fn parse_item(b: Seq<u8>) -> Option<(u64, Seq<u8>, int)> {
+    if b.len() < 12 { None } else {
+        let pos = spec_u64_from_le_bytes(b.subrange(0, 8));
+        let len = spec_u32_from_le_bytes(b.subrange(8, 12)) as int;
+        if b.len() - 12 < len { None } else { Some((pos, b.subrange(12, 12 + len), 12 + len)) }
+    }
+}
+
+/// parse a whole body: Some(items) iff every item is complete (what MultiRecord::new validates)
+pub open spec fn parse_items(b: Seq<u8>) -> Option<Seq<(u64, Seq<u8>)>>
+    decreases b.len(),
+{
+    if b.len() == 0 { Some(Seq::empty()) } else {
+        match parse_item(b) {
+            None => None,
+            Some((pos, payload, used)) => match parse_items(b.skip(used)) {
+                None => None,
+                Some(rest) => Some(seq![(pos, payload)] + rest),
+            },
+        }
+    }
+}
+
+/// parse an entry: None = rejected as corrupted
+pub open spec fn parse_entry(b: Seq<u8>) -> Option<EntryView> {
+    if b.len() < 11 { None } else if !(1 <= b[0] <= 4) { None } else {
+        let position = spec_u64_from_le_bytes(b.subrange(1, 9));
+        let qlen = spec_u16_from_le_bytes(b.subrange(9, 11)) as int;
+        let rest = b.skip(11);
+        if rest.len() < qlen { None } else {
+            let qbytes = rest.take(qlen);
+            let body = rest.skip(qlen);
+            if !vstd::utf8::valid_utf8(qbytes) { None }
+            else if b[0] == 4 && parse_items(body) is None { None }
+            else { Some(EntryView { kind: b[0], queue: vstd::utf8::decode_utf8(qbytes), position, body: if b[0] == 4 { body } else { Seq::empty() } }) }
+        }
+    }
 }
 
 } // verus!
